@@ -730,9 +730,19 @@ start:
 		for _, instr := range b.Instrs {
 			ops = instr.Operands(ops[:0])
 			for _, pop := range ops {
-				if op, ok := (*pop).(*ir.Const); ok && typeutil.IsPointerLike(op.Type()) {
-					// The only constant pointer-like is nil.
-					entrys.set(op, ValueNilness{Inner: AlwaysNil, Outer: AlwaysNil})
+				switch op := (*pop).(type) {
+				case *ir.Const:
+					if typeutil.IsPointerLike(op.Type()) {
+						// The only constant pointer-like is nil.
+						entrys.set(op, ValueNilness{Inner: AlwaysNil, Outer: AlwaysNil})
+					}
+				case *ir.Global, *ir.Function, *ir.Builtin:
+					// Addresses of globals and functions are never nil. Like
+					// parameters, they have to be part of the entry state:
+					// state.get only falls back to these defaults for values
+					// beyond the end of the state vector, and merges treat a
+					// missing entry as 'no path'.
+					entrys.set(op, ValueNilness{Outer: NeverNil})
 				}
 			}
 		}
